@@ -506,7 +506,57 @@ def merge_with(I, fn, dicts, node):
     return out
 
 
-def builtin(I, name, a, kwargs, node):
+def install_buffer_model(I, trace=None):
+    """bytearray / memoryview / bytes over modelled buffers: only sizes are tracked (Obj 'Buffer' / 'BufferView')"""
+    def size_of(v):
+        if isinstance(v, Obj) and v.cls in ("Buffer", "BufferView"):
+            return v.fields["size"].v
+        if isinstance(v, Const) and isinstance(v.v, (bytes, bytearray)):
+            return len(v.v)
+        return None
+
+    def mk_bytearray(I_, a, kw):
+        if not a:
+            n = 0
+        elif isinstance(a[0], Const) and isinstance(a[0].v, int):
+            n = a[0].v
+        elif size_of(a[0]) is not None:
+            n = size_of(a[0])
+        else:
+            raise ShapeError(f"bytearray({a[0]!r})")
+        if trace is not None:
+            trace.allocations.append(n)
+        return Obj("Buffer", OrderedDict(size=Const(n), filled=Const(0)))
+
+    def mk_view(I_, a, kw):
+        n = size_of(a[0]) if a else None
+        if n is None:
+            raise ShapeError("memoryview of an unmodelled object")
+        base = a[0].fields.get("base", a[0]) if isinstance(a[0], Obj) else a[0]
+        return Obj("BufferView", OrderedDict(size=Const(n), base=base))
+
+    def mk_bytes(I_, a, kw):
+        if not a:
+            return Const(b"")
+        n = size_of(a[0])
+        if n is not None and n <= 10**8:
+            return Const(bytes(n))
+        if isinstance(a[0], Const) and isinstance(a[0].v, int) and a[0].v <= 10**8:
+            return Const(bytes(a[0].v))
+        raise ShapeError(f"bytes({a[0]!r})")
+
+    def mk_len(I_, a, kw):
+        n = size_of(a[0]) if a else None
+        if n is not None and isinstance(a[0], Obj):
+            return Const(n)
+        return builtin(I_, "len", a, kw, None, _no_override=True)
+    I.builtin_overrides = {"bytearray": mk_bytearray, "memoryview": mk_view, "bytes": mk_bytes, "len": mk_len}
+
+
+def builtin(I, name, a, kwargs, node, _no_override=False):
+    ov = getattr(I, "builtin_overrides", None)
+    if ov and name in ov and not _no_override:
+        return ov[name](I, a, kwargs)
     if name.startswith(("str.", "dict.", "list.", "bytes.")) and a:
         # unbound method used as a function: str.lower(x) == x.lower()
         return call_method(I, a[0], name.split(".", 1)[1], list(a[1:]), kwargs, node)
